@@ -41,6 +41,9 @@ def cases(tier):
         # dynamic calibration: the scale carried by the re-based states decides the next checkpoint inside the same step
         out.append(f"interp/{ssm}/fixedpoint/dynamic/ts0/o1q1d1/damp_zero")
     out.append("chain/i/noclip/o2i2")
+    # finalisation when the last step overstepped the final time (adaptive runs without clipping)
+    for ssm in cm.SSMS:
+        out.append(f"finalize/{ssm}/fixedpoint/mle/ts0/o1q1d1/damp_zero")
     if tier == "thorough":
         for ssm in cm.SSMS:
             out.append(f"step/{ssm}/fixedpoint/none/ts1/o1q1d1/damp_sym")
@@ -149,6 +152,82 @@ def build_marginals(key, nk=2):
             mi, Pi = cm.dense_rv_raw(orc, cfg.ssm, orc.arr(means)[i], orc.arr(chols)[i], d)
             res[f"mean[{i}]"] = (mi, m)
             res[f"cov[{i}]"] = (Pi, P)
+        return res
+    return make, goals
+
+
+# ------------------------------------------------------------------ Smoother.finalize from arbitrary pieces (overstepped last state)
+def build_finalize(key):
+    """finalize with an ARBITRARY overstepped last state (non-identity posterior1.conditional), one in-between point and a
+    symbolic calibration scale: returned marginals, returned backward factorisation and stacked filtering marginals"""
+    cfg = sc.parse_key(key)
+    d, n = cfg.d, cfg.n
+
+    def make(dom):
+        from probdiffeq import probdiffeq
+        from probdiffeq._probdiffeq.estimators_and_losses import MarkovSequence
+        Cond, Normal = cm.impl(cfg.ssm)
+        tf = sc.concrete_prior(cfg).init.tree_flatten
+        rv0 = cm.sym_rv(dom, cfg.ssm, n, d, "a")
+        rvk = cm.sym_rv(dom, cfg.ssm, n, d, "b")
+        rv1 = cm.sym_rv(dom, cfg.ssm, n, d, "e")
+        c0 = cm.sym_cond(dom, cfg.ssm, n, n, d, "ka", scal="one")
+        ck = cm.sym_cond(dom, cfg.ssm, n, n, d, "kb", scal="one")
+        c1 = cm.sym_cond(dom, cfg.ssm, n, n, d, "ke", scal="one")
+        sshape = (d,) if cfg.ssm == "blockdiag" else ()
+        scale = sym_array(dom, "osc", sshape, unit=True)
+
+        def fn(rv0, rvk, rv1, c0, ck, c1, scale):
+            import jax
+            import jax.numpy as jnp
+            strat = probdiffeq.strategy_smoother_fixedpoint() if cfg.strategy == "fixedpoint" else probdiffeq.strategy_smoother_fixedinterval()
+
+            def mk(c):
+                A, b, Q, tl, to = c
+                return Cond(A, Normal(b, Q, tf), to_latent=tl, to_observed=to)
+            p0 = MarkovSequence(Normal(*rv0, tf), mk(c0), reverse=True)
+            stack = lambda x: jax.tree_util.tree_map(lambda a: jnp.stack([a]), x)     # noqa: E731
+            pk = MarkovSequence(stack(Normal(*rvk, tf)), stack(mk(ck)), reverse=True)
+            p1 = MarkovSequence(Normal(*rv1, tf), mk(c1), reverse=True)
+            marg, sol = strat.finalize(posterior0=p0, posterior=pk, posterior1=p1, output_scale=scale)
+            fp = sol.posterior
+            return (marg.mean_flat, marg.cholesky_flat, fp.marginal.mean_flat, fp.marginal.cholesky_flat,
+                    sol.filtering.mean_flat, sol.filtering.cholesky_flat)
+        return fn, (rv0, rvk, rv1, c0, ck, c1, scale)
+
+    def goals(args, out, orc):
+        rv0, rvk, rv1, c0, ck, c1, scale = args
+        mm, mL, fm, fL, flm, flL = [orc.arr(x) for x in out]
+        sc_ = orc.arr(scale)
+        s2 = orc.zeros((n * d, n * d))
+        for i in range(n * d):
+            sv = sc_[i % d] if cfg.ssm == "blockdiag" else sc_[()]
+            s2[i, i] = sv * sv
+        # diagonal scaling commutes here: d=1 (blockdiag with d=1 has a single scale)
+        sval = s2[0, 0]
+        m1, P1 = cm.dense_rv_raw(orc, cfg.ssm, *rv1, d)
+        G1, o1, S1 = cm.dense_cond_raw(orc, cfg.ssm, *c1, d)
+        mt = G1.dot(m1) + o1
+        Pt = (G1.dot(P1).dot(G1.T) + S1) * sval
+        Gk, ok_, Sk = cm.dense_cond_raw(orc, cfg.ssm, *ck, d)
+        mk_ = Gk.dot(mt) + ok_
+        Pk_ = Gk.dot(Pt).dot(Gk.T) + Sk * sval
+        res = {}
+        a, b = cm.dense_rv_raw(orc, cfg.ssm, fm, fL, d)
+        res["returned factorisation: terminal marginal = overstepped state pulled back to t1 (mean)"] = (a, mt)
+        res["returned factorisation: terminal marginal = overstepped state pulled back to t1 (cov, calibrated)"] = (b, Pt)
+        a, b = cm.dense_rv_raw(orc, cfg.ssm, mm[-1], mL[-1], d)
+        res["marginals[-1] = the same terminal marginal (mean)"] = (a, mt)
+        res["marginals[-1] = the same terminal marginal (cov)"] = (b, Pt)
+        a, b = cm.dense_rv_raw(orc, cfg.ssm, mm[0], mL[0], d)
+        res["marginals[0] = backward kernel applied to the terminal marginal (mean)"] = (a, mk_)
+        res["marginals[0] = backward kernel applied to the terminal marginal (cov)"] = (b, Pk_)
+        m0, P0 = cm.dense_rv_raw(orc, cfg.ssm, *rv0, d)
+        mkk, Pkk = cm.dense_rv_raw(orc, cfg.ssm, *rvk, d)
+        a, b = cm.dense_rv_raw(orc, cfg.ssm, flm[0], flL[0], d)
+        res["filtering[0] = calibrated initial filtering marginal"] = (np.concatenate([a, b.reshape(-1)]), np.concatenate([m0, (P0 * sval).reshape(-1)]))
+        a, b = cm.dense_rv_raw(orc, cfg.ssm, flm[1], flL[1], d)
+        res["filtering[1] = calibrated in-between filtering marginal"] = (np.concatenate([a, b.reshape(-1)]), np.concatenate([mkk, (Pkk * sval).reshape(-1)]))
         return res
     return make, goals
 
@@ -270,6 +349,8 @@ def _case(case_id, tier):
         make, goals = build_step(key)
     elif kind == "marginals":
         make, goals = build_marginals(key)
+    elif kind == "finalize":
+        make, goals = build_finalize(key)
     elif kind in ("interp", "interp_at"):
         from props import C05
         make, goals = C05.build_interp(key, at_t1=(kind == "interp_at"))
